@@ -481,6 +481,63 @@ KEY_CLAUSES = [" PRIMARY KEY (a)", " PRIMARY KEY (a, b DESC)", "", " PRIMARY KEY
 TABLE_TAILS = ["", ", INTERLEAVE IN PARENT p ON DELETE CASCADE", ", ROW DELETION POLICY (OLDER_THAN(ts, INTERVAL 30 DAY))"]
 
 
+def query_systematic():
+    """seed-independent products of the optional parts of the query grammar (join type x join method x hint x condition; set operator x
+    quantifier; aggregate-call modifiers; INSERT variants; hint x statement kind), as the DDL options above"""
+    out = []
+    jtypes = ["", "INNER ", "LEFT ", "LEFT OUTER ", "RIGHT ", "RIGHT OUTER ", "FULL ", "FULL OUTER "]
+    jmethods = ["", "HASH "]
+    jhints = ["", "@{FORCE_JOIN_ORDER=TRUE} ", "@{JOIN_METHOD=HASH_JOIN} "]
+    conds = [" ON A.x = B.x", " USING (x)", " USING (x, y)"]
+    for t in jtypes:
+        for m in jmethods:
+            for h in jhints:
+                for c in conds:
+                    out.append("SELECT * FROM A %s%sJOIN %sB%s" % (t, m, h, c))
+    for h in jhints:
+        out.append("SELECT * FROM A CROSS JOIN %sB" % h)
+        out.append("SELECT * FROM A, B CROSS JOIN %sC" % h)
+        out.append("SELECT * FROM (A JOIN %sB ON TRUE) JOIN C USING (x)" % h)
+        out.append("SELECT * FROM A LEFT JOIN %sUNNEST(A.arr) AS e" % h)
+        out.append("SELECT * FROM A JOIN %sUNNEST([1, 2]) AS e WITH OFFSET ON e = A.x" % h)
+    for op in ("UNION", "INTERSECT", "EXCEPT"):
+        for q in ("ALL", "DISTINCT"):
+            out.append("SELECT 1 %s %s SELECT 2" % (op, q))
+            out.append("(SELECT 1) %s %s (SELECT 2 %s %s SELECT 3) ORDER BY 1 LIMIT 1" % (op, q, op, q))
+            out.append("SELECT * FROM (SELECT 1 %s %s SELECT 2) AS s" % (op, q))
+    for d in ("", "DISTINCT "):
+        for nh in ("", " IGNORE NULLS", " RESPECT NULLS"):
+            for hv in ("", " HAVING MAX y", " HAVING MIN y"):
+                # ORDER BY / LIMIT inside an aggregate call are GoogleSQL but not implemented by memefish (CallExpr has no field for them)
+                out.append("SELECT ARRAY_AGG(%sx%s%s) FROM t" % (d, nh, hv))
+                out.append("SELECT STRING_AGG(%sx, ','%s%s), f(%sy%s) FROM t" % (d, nh, hv, d, nh))
+    for ioru in ("", "OR UPDATE ", "OR IGNORE "):
+        for into in ("", "INTO "):
+            for src in ("VALUES (1, 'a')", "VALUES (1, DEFAULT), (2, 'b')", "SELECT 1, 'a'", "(SELECT 1, 'a')"):
+                for ret in ("", " THEN RETURN *", " THEN RETURN WITH ACTION AS act a, b", " THEN RETURN a + 1 AS c"):
+                    out.append("INSERT %s%st (a, b) %s%s" % (ioru, into, src, ret))
+    for hint in ("@{FORCE_JOIN_ORDER=TRUE} ", "@{a=1, b.c=TRUE} "):
+        for st in ("SELECT 1", "WITH w AS (SELECT 1) SELECT * FROM w", "(SELECT 1)", "FROM t |> SELECT *", "FROM t", "INSERT INTO t (a) VALUES (1)",
+                   "UPDATE t SET a = 1 WHERE TRUE", "DELETE FROM t WHERE TRUE"):
+            out.append(hint + st)
+    for o in ("", " ASC", " DESC"):
+        for c in ("", " COLLATE \"und:ci\""):
+            out.append("SELECT a FROM t ORDER BY a%s%s, b%s" % (c, o, o))
+    for lim in (" LIMIT 1", " LIMIT @n", " LIMIT 1 OFFSET 2", " LIMIT @n OFFSET @m", " LIMIT CAST(1 AS INT64) OFFSET CAST(@m AS INT64)"):
+        out.append("SELECT a FROM t" + lim)
+        out.append("(SELECT a FROM t%s)%s" % (lim, lim))
+    res = []
+    for s_ in out:
+        dml = s_.startswith(("INSERT", "UPDATE", "DELETE")) or (s_.startswith("@{") and any(k in s_ for k in ("INSERT", "UPDATE", "DELETE")))
+        if dml:
+            res.append(("ParseStatement", s_.encode()))
+            res.append(("ParseDML", s_.encode()))
+        else:
+            res.append(("ParseQuery", s_.encode()))
+            res.append(("ParseStatement", s_.lower().encode() if '"' not in s_ and "'" not in s_ else s_.encode()))
+    return res
+
+
 def systematic_cases(valid_only=True):
     """seed-independent pairwise enumeration of optional clauses (every pair of column options x every key clause, ...);
     valid_only: leave out combinations Spanner forbids (two key definitions) - they are still inputs for the error-contract checks"""
@@ -506,6 +563,7 @@ def systematic_cases(valid_only=True):
                 continue
             out.append(("ParseDDL", ("CREATE TABLE t (a INT64%s)%s" % (o, k)).encode()))
             out.append(("ParseDDL", ("ALTER TABLE t ADD COLUMN a INT64%s" % o).encode()))
+    out += query_systematic()
     return out
 
 
